@@ -593,6 +593,16 @@ namespace smt
         _preds[from][to] = pred;
     }
 
+#ifdef ORATIO_VERIF
+    SMT_EXPORT std::vector<rdl_theory::verif_constraint> rdl_theory::verif_constraints() const
+    {
+        std::vector<verif_constraint> cs;
+        for (const auto &[v, d] : var_dists)
+            cs.push_back({d->b, d->from, d->to, d->dist});
+        return cs;
+    }
+#endif
+
     void rdl_theory::resize(const size_t &size) noexcept
     {
         const size_t c_size = _dists.size();
